@@ -701,14 +701,15 @@ void qlist_clear(qlist_t *list) {
  *  -ENOMEM : Memory allocation failure.
  */
 void *qlist_toarray(qlist_t *list, size_t *size) {
+    qlist_lock(list);
+
     if (list->num <= 0) {
         if (size != NULL)
             *size = 0;
+        qlist_unlock(list);
         errno = ENOENT;
         return NULL;
     }
-
-    qlist_lock(list);
 
     void *chunk = malloc(list->datasum);
     if (chunk == NULL) {
@@ -723,10 +724,10 @@ void *qlist_toarray(qlist_t *list, size_t *size) {
         memcpy(dp, obj->data, obj->size);
         dp += obj->size;
     }
-    qlist_unlock(list);
-
     if (size != NULL)
         *size = list->datasum;
+    qlist_unlock(list);
+
     return chunk;
 }
 
@@ -746,12 +747,13 @@ void *qlist_toarray(qlist_t *list, size_t *size) {
  *  Return string is always terminated by '\0'.
  */
 char *qlist_tostring(qlist_t *list) {
+    qlist_lock(list);
+
     if (list->num <= 0) {
+        qlist_unlock(list);
         errno = ENOENT;
         return NULL;
     }
-
-    qlist_lock(list);
 
     void *chunk = malloc(list->datasum + 1);
     if (chunk == NULL) {
